@@ -216,7 +216,8 @@ def check(case, ctx):
         same = type(a) is type(b)
         ctx.check(same, 'structure/type/%s/%s' % (op, type(a).__name__), '%s turned %s into %s' % (op, type(a).__name__, type(b).__name__))
     # -- point-wise commutation ------------------------------------------------------------------------
-    bez_tol = 1024 * EPS * pos * mag * max(1.0, cond)
+    # scaled() goes through the power basis and back (bez2poly / poly2bez): a few more roundings than the other operations
+    bez_tol = (8192 if op in ('scaled', 'scaled_xy') else 1024) * EPS * pos * mag * max(1.0, cond)
     arc_tol = ((2e-4 if degenerate else 1e-7) * size * max(1.0, ecc) * mag * cond + bez_tol)
     for a, b, sp in zip(segs, rsegs, specs):
         tol = arc_tol if sp[0] == 'A' else bez_tol
